@@ -65,6 +65,65 @@ def compare(label, make_decomposed, make_native, modes, n):
         bad(f"{label} on modes {modes}: decomposed and natively applied operation give different states (max difference {err:.3g})")
 
 
+def check_every_gate_dagger(rng):
+    """for EVERY Gate subclass of ops.py (found by introspection): the gate followed by its .H form is the identity on a
+    correlated non-vacuum state, whether it is applied natively or through its decomposition; the commands of a decomposition do
+    not share operation objects (Gate.decompose flips the inverse flag of each command in place)"""
+    import inspect
+    from strawberryfields.program_utils import RegRef
+    ARGS = {"Dgate": (0.3, 0.4), "Xgate": (0.4,), "Zgate": (-0.3,), "Sgate": (0.3, 0.5), "Rgate": (0.6,), "Pgate": (0.3,), "Vgate": (0.1,),
+            "Kgate": (0.2,), "Fouriergate": (), "BSgate": (0.4, 0.7), "MZgate": (0.5, 0.9), "sMZgate": (0.4, 1.3), "S2gate": (0.3, 0.6),
+            "CXgate": (0.3,), "CZgate": (-0.4,), "CKgate": (0.2,)}
+    NON_GAUSSIAN = {"Vgate", "Kgate", "CKgate"}
+    SKIP = {"Ggate"}                        # needs a symplectic matrix argument; covered through GaussianTransform
+    names = sorted(n for n, c in inspect.getmembers(ops, inspect.isclass)
+                   if c.__module__ == ops.__name__ and issubclass(c, ops.Gate) and c is not ops.Gate and not n.startswith("_"))
+    for name in names:
+        if name in SKIP:
+            continue
+        if name not in ARGS:
+            bad(f"gate class {name} has no argument pattern in the stand-in (new class?)")
+            continue
+        cls = getattr(ops, name)
+        ns = cls.ns if cls.ns else 1
+        for modes in ([(0,), (2,)] if ns == 1 else [(0, 1), (2, 0)]):
+            EVAL[0] += 1
+            g = cls(*ARGS[name])
+            # decomposition products are distinct objects
+            if hasattr(g, "_decompose") and type(g)._decompose is not ops.Operation._decompose:
+                try:
+                    cmds = g._decompose([RegRef(m) for m in modes])
+                    if len({id(c.op) for c in cmds}) != len(cmds):
+                        bad(f"{name}._decompose puts one operation object into several commands (inverting the decomposition flips its flag twice)")
+                except NotImplementedError:
+                    pass
+            backend = "fock" if name in NON_GAUSSIAN else "gaussian"
+            kw = {"cutoff_dim": 10} if backend == "fock" else {}
+            def state(with_gate):
+                prog = sf.Program(3)
+                with prog.context as q:
+                    for k in range(3):
+                        ops.Sgate(0.15 + 0.05 * k, 0.3 * k) | q[k]
+                        ops.Dgate(0.1 * (k + 1), 0.2) | q[k]
+                    ops.BSgate(0.4, 0.2) | (q[0], q[2])
+                    if with_gate:
+                        gg = cls(*ARGS[name])
+                        gg | tuple(q[m] for m in modes)
+                        gg.H | tuple(q[m] for m in modes)
+                st = sf.Engine(backend, backend_options=kw).run(prog).state
+                return np.array([st.quad_expectation(m, ph) for m in range(3) for ph in (0.0, 0.9, np.pi / 2)])
+            try:
+                a, b = state(False), state(True)
+            except Exception as e:
+                bad(f"{name} then {name}.H on modes {modes} ({backend}): raised {type(e).__name__}: {e}")
+                continue
+            tol = 3e-3 if backend == "fock" else 1e-8
+            if name == "MZgate" and backend == "gaussian":
+                pass
+            if not np.allclose(a, b, atol=tol):
+                bad(f"{name}{ARGS[name]} followed by its .H form on modes {modes} ({backend} backend) is not the identity (max moment change {abs(a - b).max():.3g})")
+
+
 def embedded_moments(A, total_photons):
     """documented state of a graph embedding: the pure Gaussian state whose adjacency ('A') matrix is c*A with the scale c fixed
     by the requested total mean photon number.  Returns N = <a_i^+ a_j>, M = <a_i a_j> (independent numpy calculation)."""
@@ -139,6 +198,7 @@ if __name__ == "__main__":
     hb = sf.hbar
     try:
         check_embeddings(rng)
+        check_every_gate_dagger(rng)
     except Exception:
         import traceback
         traceback.print_exc()
